@@ -831,7 +831,7 @@ pub fn rand_eval(rng: &mut Rng, labels: &[(String, usize)]) -> Cmd {
 /// it is now, not as it was loaded.
 pub fn move_value(rng: &mut Rng) -> u16 {
     if rng.chance(1, 2) {
-        *rng.pick(&[0xF025u16, 0xF025, 0x4800, 0x4801, 0x4FFF, 0x4040, 0x41C0, 0xC1C0, 0xD800, 0xDC00, 0xDC01, 0x0FFF, 0x0000, 0xF021, 0xF0FF, 0x8000])
+        *rng.pick(&[0xF025u16, 0xF025, 0xF125, 0xFF25, 0xCFFF, 0x4800, 0x4801, 0x4FFF, 0x4040, 0x41C0, 0xC1C0, 0xD800, 0xDC00, 0xDC01, 0x0FFF, 0x0000, 0xF021, 0xF0FF, 0x8000])
     } else {
         rng.u16()
     }
@@ -1057,6 +1057,11 @@ fn small_programs() -> Vec<(u16, Vec<u16>, bool, &'static str)> {
         (0x3000, vec![0x2004, 0x3001, 0x1261, 0xF025, 0x14A1, 0x1261, 0xF025], false, "store-over-halt"),
         (0x3000, vec![0x2006, 0x3001, 0x1261, 0x4802, 0x14A1, 0xF025, 0xC1C0, 0x1261], false, "store-over-jsr"),
         (0x0001, vec![0x1021, 0x1021, 0xF025], false, "origin-one"),
+        // words whose unused bits are set: TRAP x25 with bits [11:8] (the VM decodes the vector from
+        // the low byte alone, so these halt), JMP R7 with bits [11:9] and [5:0] (still a return)
+        (0x3000, vec![0x1021, 0x1021, 0xF125, 0x1021, 0xF025], false, "halt-junk-bits"),
+        (0x3000, vec![0x1021, 0xFF25, 0x1021, 0xF025], false, "halt-junk-bits-f"),
+        (0x3000, vec![0x4802, 0x1021, 0xF825, 0x1261, 0xCFFF], false, "ret-junk-bits"),
     ]
 }
 
